@@ -307,7 +307,10 @@ def global_state(db, modules=None):
             for d in fn.decorator_list:
                 src = ast.unparse(d)
                 if src.split("(")[0].split(".")[-1] in ("lru_cache", "cache", "cached_property"):
-                    out.append((mq, fn.name, mq + "." + fn.name, fn.lineno, "@" + src, "arguments (identity / hash of objects)"))
+                    first = fn.args.args[0].arg if fn.args.args else ""
+                    is_method = first in ("self", "cls") or src.split("(")[0].split(".")[-1] == "cached_property"
+                    out.append((mq, fn.name, mq + "." + fn.name, fn.lineno, "@" + src,
+                                "self (the object, not its state)" if is_method else "value-keyed cache of a module-level function"))
             if not cands:
                 continue
             for n in ast.walk(fn):
@@ -338,9 +341,13 @@ def global_state_rule(ctx, chk, rule="R10.1", modules=None, strict=True):
     strict: any such state is a violation; otherwise identity-keyed memos (id()/hash()/repr of an argument in the key) are violations and the rest is INCONCLUSIVE."""
     finds = global_state(ctx.db, modules)
     for mq, name, writer, line, how, ksrc in finds:
-        ident = any(tok in ksrc for tok in ("id(", "hash(", "repr(", "identity"))
+        if ksrc == "value-keyed cache of a module-level function":
+            # functools cache of a module-level function: keyed by the (hashable) argument values; unobservable when the function is pure
+            chk.hold(rule, "functools-cache:%s" % name, "%s on a module-level function: keyed by argument values" % how, nontrivial=False)
+            continue
+        ident = any(tok in ksrc for tok in ("id(", "hash(", "repr(", "self (the object"))
         msg = "module-level %s written by %s (%s%s)" % (name, writer.split(".")[-1], how, ", key " + ksrc[:80] if ksrc else "")
-        if strict or ident:
+        if ident:
             chk.violation(rule, writer, "global-state:%s:%s" % (name, "identity-key" if ident else "state"),
                           msg + (" — the key identifies an object, not its content: an in-place edit or a recycled id returns the stale entry" if ident else ""),
                           "no state outlives a call (results are functions of the arguments and the receiver)", "%s line %d" % (mq, line))
